@@ -1,0 +1,37 @@
+//go:build verif
+
+package messagequeue
+
+import (
+	"context"
+	"time"
+
+	peer "github.com/libp2p/go-libp2p/core/peer"
+)
+
+// This file is compiled only with the build tag "verif". It gives the external
+// verification harness (through bitswap/client/verifbridge) access to the
+// unexported constructor and to the one lock-free window of
+// extractOutgoingMessage.
+
+// VerifBetweenSections, when non-nil, is called by the send loop inside
+// extractOutgoingMessage after the first critical section (snapshot of the
+// pending wants and cancels) has been left and before the second one (mark
+// sent / re-check) is entered. No lock is held during the call, so the callback
+// may call AddWants, AddBroadcastWantHaves, AddCancels etc.; doing so is
+// equivalent to another goroutine running those calls in that window.
+var VerifBetweenSections func(mq *MessageQueue)
+
+// VerifNewMessageQueue wraps the unexported constructor used by the package's own
+// tests (custom maximum message size, no event channel).
+func VerifNewMessageQueue(
+	ctx context.Context,
+	p peer.ID,
+	network MessageNetwork,
+	maxMsgSize int,
+	sendErrorBackoff time.Duration,
+	maxValidLatency time.Duration,
+	dhTimeoutMgr DontHaveTimeoutManager,
+) *MessageQueue {
+	return newMessageQueue(ctx, p, network, maxMsgSize, sendErrorBackoff, maxValidLatency, dhTimeoutMgr, nil)
+}
